@@ -73,3 +73,20 @@ theorem Steps_evalFuel {t v : Tm} (h : Steps t v) (hv : step v = none) :
       | succ m =>
         simp only [evalFuel, step_complete hs]
         exact hn m (by omega)
+
+theorem delta_none_iff (op : BinOp) (x y : Int) : delta op x y = none ↔ (op = .quot ∧ y = 0) := by
+  cases op <;> simp [delta]
+
+theorem stuckReason_complete : ∀ (t : Tm), step t = none → isValue t = false →
+    ∃ r, stuckReason t = some r := by
+  intro t
+  fun_induction stuckReason t <;> simp_all [step, isValue, delta_none_iff]
+
+theorem stuckReason_sound : ∀ (t : Tm) (r : StuckReason), stuckReason t = some r →
+    step t = none ∧ isValue t = false := by
+  intro t
+  fun_induction stuckReason t <;> intro r h <;> simp_all [step, isValue, delta_none_iff]
+
+theorem value_not_stuck : ∀ (t : Tm), isValue t = true → step t = none ∧ stuckReason t = none := by
+  intro t h
+  cases t <;> simp [isValue] at h <;> simp [step, stuckReason]
